@@ -131,6 +131,9 @@ func (r *Run) Want(key string) bool {
 	return r.replayKey == "" || r.replayKey == key || strings.HasPrefix(r.replayKey, key+"/")
 }
 
+// ReplayKey returns the key being replayed ("" in a normal run).
+func (r *Run) ReplayKey() string { return r.replayKey }
+
 // Replaying reports whether the run is a replay of one recorded case.
 func (r *Run) Replaying() bool { return r.replayKey != "" }
 
